@@ -108,6 +108,22 @@ CLAIMS = {
          '(8bx+x, 8by+y) with x,y cropped to the plane, s = 1/4, B00/4, 1/8; Full = rows, transposition, columns; Zero stores nothing (all-zero -> unchanged); '
          'E the sparse shortcuts are selected only for blocks of their shape (sticky flags cleared exactly on a non-zero coefficient off the row / column) with the right payloads.',
     technique='const-table folding against a formula; loop-index-normalised def-use expressions compared with written-out forms; control-dependence guards of sticky flags', ref='6/C10'),
+ 'C08': dict(
+    text='PARTIAL BY DESIGN: the "never panics for any size" clause needs relational reasoning about slice bounds (row*width <= len) that the interval reading cannot do; '
+         'it is NOT decided. Decided, for every width and height at once, is the pairing: K the kernel takes ([u8;4],[u8;2],[u8;2]) -> [u8;16] and lane l converts Y[l] with '
+         'Cb[l/2], Cr[l/2] (C07\'s canonical-form rule); M in the whole-group path call k of row r receives bytes 4k.. of luma row r, bytes 2k.. of row r/2 of each chroma '
+         'plane and writes bytes 16k.. of output row r (one common group index, row slices r*w, (r/2)*ceil(w/2), r*4w); R the remainder path (iff w mod 4 != 0) gathers '
+         'y[x mod 4] = row[x], c[(x mod 4)/2] = crow[x/2] over the last w mod 4 columns and copies bytes 4(w - w mod 4)..4w from the kernel result at i mod 16; so pixel '
+         '(x, y) is the conversion of luma (x, y) with chroma (x/2, y/2), replicated, never interpolated. Output length 4*len(y) and the empty shortcut are rule Q of C13.',
+    technique='loop-index-normalised def-use terms (polynomial normal form) compared with written-out slice/index forms; kernel canonical form from C07; control-dependence guard of the remainder path', ref='6/C08'),
+ 'C13': dict(
+    text='Static, all widths and heights 0..65535 and quantizers at once: P DecodedPicture::new allocates luma w*h and both chroma planes cw*ch; its f32 expression '
+         'ceil(w/2.0) is tabulated exactly over the whole u16 domain and equals div_ceil(w, 2); chroma_samples_per_row = cw; G the nine accessors return exactly those '
+         'fields as slices; R the plane vectors are private and the only use of &mut Vec in the module is deref_mut (a slice cannot change length); Q yuv420_to_rgba cuts chroma '
+         'rows at (row/2)*CW with CW a function equal to ceil(width/2) on the whole domain, loops over len(y)/width rows, returns vec![0; 4*len(y)] (exactly width*height pixels), '
+         'empty shortcut before any division; J2/S the strength table has 32 entries = Table J.2 with values 1..12 for quantizers 1..31 and Picture.quantizer is a 5-bit read. '
+         'deblock() accepting every such plane is C16. NOT decided: panic-freedom of the slice arithmetic inside yuv420_to_rgba (relational; see C08).',
+    technique='closed-form agreement between producer and consumer (terms tabulated over the full finite domain); visibility / who-may-resize rule; const-table folding', ref='6/C13'),
  'C17': dict(
     text='Static, all executions: no shared mutable state and no nondeterminism source exists in the three crates. S1 every static immutable+Freeze '
          '(lazy_static cells: pure constant initialiser), S2 zero unsafe/extern (HIR walk), S3 interprocedural mod/ref summaries show no static is written, '
